@@ -22,6 +22,7 @@ EXPLANATION = (
     "under the same condition, and the registry is one module-level NameSelector. Whether two given "
     "entities collide is a run-time fact and is not decided."
     ' R5: after NameSelector made the identifier unique nothing lossy is applied to it where page names, URLs and anchors are composed - the composing expressions are evaluated symbolically with a placeholder that any case folding or replacement would change.'
+    " Added after waves 6/7 - element ids in the templates are the unique anchors (shared with C09.R2/R8)."
 )
 ASSUMPTIONS = ["str.lower and str.replace are the only name-merging string operations in use"]
 
@@ -453,6 +454,14 @@ def r7_pages_do_not_merge(ctx, rep):
     from . import c17
     c17.r8_one_page_per_file(ctx, rep)
 
+def r8_template_ids_are_anchors(ctx, rep):
+    """the id of an item on a page is its `anchor` (built from the unique ident), for every collection and row kind - an id
+    built from the name is shared by equally named items (shared with C09.R2 / C09.R8)"""
+    from . import c09
+    c09.r2_anchors(ctx, rep)
+    c09.r8_anchor_targets_exist(ctx, rep)
+
+
 RULES = [
     RuleSpec("C10.R5", r5_no_transformation_after_uniqueness, "no lossy transformation after the identifier was made unique", floor=2),
     RuleSpec("C10.R1", r1_counter_key, "collision key at least as coarse as the stem; injective symbol table", floor=2),
@@ -461,4 +470,5 @@ RULES = [
     RuleSpec("C10.R4", r4_dir_ident_overrides, "get_dir and ident overrides agree", floor=1),
     RuleSpec("C10.R7", r7_pages_do_not_merge, "static pages with dotted names do not share an output file (shared with C17.R8)", floor=1),
     RuleSpec("C10.R6", r6_ident_not_a_key, "ident is not used alone as an identity key", floor=1),
+    RuleSpec("C10.R8", r8_template_ids_are_anchors, "element ids are the unique anchors the links use (shared with C09.R2/R8)", floor=20),
 ]
